@@ -43,12 +43,22 @@ impl SharedGroup {
         }
     }
 
+    #[cfg(rumqtt_verif)]
+    pub fn verif_clients(&self) -> Vec<String> {
+        self.clients.clone()
+    }
+
     pub fn update_next_client(&mut self) {
         match self.strategy {
             Strategy::RoundRobin => {
                 self.current_client_index = (self.current_client_index + 1) % self.clients.len();
             }
             Strategy::Random => {
+                #[cfg(rumqtt_verif)]
+                if let Some(index) = crate::verif::choose(self.clients.len()) {
+                    self.current_client_index = index;
+                    return;
+                }
                 self.current_client_index = rand::thread_rng().gen_range(0..self.clients.len());
             }
             Strategy::Sticky => {}
